@@ -388,6 +388,15 @@ def fresh_result(pool_texts: list[str], op: dict, src: tuple | None, expr_called
     if op["op"] == "compose":
         return ("ok", None)
     r = Runner(build_pool(pool_texts))
+    if op["op"] == "ld_new":
+        # the same construction on never-used objects: through a fresh Differential of the same kind, or directly
+        p = wire.build_point(op["p"])
+        if src is not None and src[2] in ("F", "FE"):
+            i, x0, kind = src
+            made = call(lambda: make_obj(kind, r.pool[i], x0).at(p), timeout=30)
+        else:
+            made = call(lambda: sm.LocatedDifferential(r.pool[op["i"]] if op["i"] < len(r.pool) else r.pool[0], p))
+        return made if made[0] != "ok" else ("ok", None)
     if op["op"] == "ld_query":
         how = src
         if how is None:
